@@ -783,6 +783,12 @@ def c09b(F, R):
                             kind = "get_pos"
                         elif nm in params and params[nm].endswith("position::Position"):
                             kind = "param"
+                        elif init is not None:
+                            i2 = init
+                            while i2.get("k") == "Unary" and i2.get("op") == "Deref":
+                                i2 = peel(i2["a"])
+                            if i2.get("k") == "MethodCall" and i2["name"] in ("start", "end") and peel(i2["recv"]).get("k") == "MethodCall" and peel(i2["recv"])["name"] == "range":
+                                kind = "range." + i2["name"]
                     elif a.get("k") == "Field" and a["name"] == "pos" and "StringLexError" in (a["e"].get("ty", "") + a["e"].get("aty", "")):
                         kind = "lexerror.pos"
                     elif a.get("k") == "MethodCall" and a["name"] == ("start" if ai == 0 else "end") and peel(a["recv"]).get("k") == "MethodCall" and peel(a["recv"])["name"] == "range":
@@ -793,6 +799,12 @@ def c09b(F, R):
                     R.bad(f"Range::new|{root}", f"Range::new({', '.join(ekey(a) for a in n['args'])}): an endpoint does not come from get_pos() / an existing range's start-end", loc(n))
                     continue
                 a0, a1 = peel(n["args"][0]), peel(n["args"][1])
+                if kinds[0] == "range.end" and not (kinds[1] == "range.end" and ekey(a0) == ekey(a1)):
+                    R.bad(f"Range::new|{root}|order", f"Range::new({ekey(a0)}, {ekey(a1)}): a range that starts at the end of another range may only be the empty range at that point", loc(n))
+                    continue
+                if kinds[1] == "range.start" and kinds[0] != "range.start":
+                    R.bad(f"Range::new|{root}|order", f"Range::new({ekey(a0)}, {ekey(a1)}): the end is taken from the start of a range", loc(n))
+                    continue
                 if a0.get("k") == "Path" and a1.get("k") == "Path" and a0["res"] in order and a1["res"] in order and order[a0["res"]] > order[a1["res"]]:
                     R.bad(f"Range::new|{root}|order", f"Range::new({a0['res']}, {a1['res']}): the start position is taken after the end position", loc(n))
                     continue
